@@ -101,15 +101,30 @@ def make_replay(e, n, xs, ys, checker=concrete_spline_check, statement="C04 Herm
             flat += [a, b]
         path = e.write_replay(ob.name, {"kind": "E2-native-spline", "requests": [["spline", "-", flat]],
                                         "statement": statement})
-        if not all(xv[i] < xv[i + 1] for i in range(n - 1)):
+        cands = []
+        if all(xv[i] < xv[i + 1] for i in range(n - 1)):
+            cands.append((xv, yv))
+        # signed-zero secants: a zero slope can be +0.0 or -0.0 in binary64 (dy = -0.0 - 0.0), which exact arithmetic does not
+        # distinguish; a deviation that only shows as inf/NaN from 1/(+-0) needs such inputs to reproduce
+        grid = [float(i) for i in range(n)]
+        cands.append((grid, [0.0 if i % 2 == 0 else -0.0 for i in range(n)]))
+        cands.append((grid, [-0.0 if i % 2 == 0 else 0.0 for i in range(n)]))
+        cands.append((grid, [0.0, -0.0] + [float(i) for i in range(1, n - 1)]))
+        cands.append((grid, [float(n - i) for i in range(n - 2)] + [0.0, -0.0]))
+        if not cands:
             return False, path, "model abscissae collapse when rounded to binary64: %r" % (xv,)
-        bad = []
-        for prof in ("dev", "release"):
-            o = e.native.run([("spline", "-", flat)], prof)[0]
-            for m in checker(xv, yv, o):
-                bad.append("%s build, knots %r: %s" % (prof, list(zip(xv, yv)), m))
-        if bad:
-            return True, path, "; ".join(bad[:3])
+        for (cx, cy) in cands:
+            fl = []
+            for a, b in zip(cx, cy):
+                fl += [a, b]
+            bad = []
+            for prof in ("dev", "release"):
+                o = e.native.run([("spline", "-", fl)], prof)[0]
+                for m in checker(cx, cy, o):
+                    bad.append("%s build, knots %r: %s" % (prof, list(zip(cx, cy)), m))
+            if bad:
+                path = e.write_replay(ob.name, {"kind": "E2-native-spline", "requests": [["spline", "-", fl]], "statement": statement})
+                return True, path, "; ".join(bad[:3])
         return False, path, "model %r does not violate the concrete statement natively" % (list(zip(xv, yv)),)
     return replay
 
